@@ -190,10 +190,13 @@ class Pipeline():
                         raise pypyr.errors.ConfigError(
                             f"shortcut '{shortcut_name}' parser_args should "
                             "be a list, not a string.")
-                    # append context_args to shortcut's parser_args
+                    # append context_args to shortcut's parser_args. always a
+                    # new list, so downstream mutations (e.g a parser handing
+                    # the args list itself to context) don't touch the
+                    # original list in config.
                     context_args = (
                         parser_args + context_args if context_args
-                        else parser_args)
+                        else list(parser_args))
 
                 skip_parse = shortcut.get('skip_parse')
                 # flip the bit - skip_parse means inverse of parse_args, but
